@@ -1,7 +1,9 @@
 /-
   Helper lemmas for C07 (`Model/MolGrid.lean`): Python indexing, the index table (prefix
   sums), the generic slice-of-flatten lemma, splitting a weighted sum over the segments of a
-  flattened list, the constructor's field characterisation, `allOk`.
+  flattened list, the constructor's field characterisation, `allOk`; round 2: the NumPy
+  primitives the generated constructor is written in (`pySetItem`, `pySetSlice`, `fitSlice`,
+  `npZeros`, `npSum`, `pyForEnum`) and the state of the constructor's loop (`loopState`).
 -/
 import GridVerif.Model.MolGrid
 import Mathlib.Algebra.BigOperators.Group.List.Lemmas
@@ -151,6 +153,10 @@ theorem pySlice_eq_drop_take (g : List α) (s n : Nat) :
   rw [List.drop_take]
   congr 1; omega
 
+theorem pySlice_length (g : List α) (a b : Nat) :
+    (pySlice g a b).length = min b g.length - a := by
+  unfold pySlice; simp
+
 theorem pySlice_zipWith (f : α → β → K) (a : List α) (b : List β) (s t : Nat) :
     pySlice (zipWith f a b) s t = zipWith f (pySlice a s t) (pySlice b s t) := by
   unfold pySlice
@@ -230,8 +236,8 @@ variable [Add K] [Mul K] [NatCast K]
 structure InitSpec (atnums : List Nat) (atgrids : List (AtGrid P K)) (aim : AimArg P K)
     (store : Bool) (m : MolGrid P K) : Prop where
   nonempty : atgrids ≠ []
-  wf : ∀ g ∈ atgrids, g.WF
-  points : m.points = (atgrids.map AtGrid.points).flatten
+  fits : ∀ g ∈ atgrids, g.Fits
+  points : m.points = (atgrids.map AtGrid.segPoints).flatten
   atweights : m.atweights = (atgrids.map AtGrid.weights).flatten
   atcoords : m.atcoords = atgrids.map AtGrid.center
   indices : m.indices = indexTable (atgrids.map AtGrid.size)
@@ -249,14 +255,14 @@ theorem init_spec {atnums : List Nat} {atgrids : List (AtGrid P K)} {aim : AimAr
   by_cases he : atgrids.isEmpty = true
   · simp [he] at h
   · simp only [he, Bool.false_eq_true, ↓reduceIte] at h
-    by_cases hw : ∀ g ∈ atgrids, g.WF
+    by_cases hw : ∀ g ∈ atgrids, g.Fits
     · rw [if_neg (not_not.mpr hw)] at h
       have hne : atgrids ≠ [] := by simpa using he
       cases aim with
       | callable f =>
         simp only at h
         cases hb : mulBroadcast (atgrids.map AtGrid.weights).flatten
-            (f (atgrids.map AtGrid.points).flatten (atgrids.map AtGrid.center) atnums
+            (f (atgrids.map AtGrid.segPoints).flatten (atgrids.map AtGrid.center) atnums
               (indexTable (atgrids.map AtGrid.size))) with
         | error e => rw [hb] at h; cases h
         | ok w =>
@@ -283,13 +289,39 @@ theorem flatten_weights_length (atgrids : List (AtGrid P K)) :
   rw [List.length_flatten, List.map_map]; rfl
 
 omit [Add K] [Mul K] [NatCast K] in
-theorem flatten_points_length (atgrids : List (AtGrid P K)) (hw : ∀ g ∈ atgrids, g.WF) :
-    (atgrids.map AtGrid.points).flatten.length = (atgrids.map AtGrid.size).sum := by
+/-- A well-formed atomic grid (every `Grid` object) fills its segment with its own points. -/
+theorem segPoints_of_wf {g : AtGrid P K} (h : g.WF) : g.segPoints = g.points := by
+  unfold AtGrid.segPoints; rw [if_pos (show g.points.length = g.size from h)]
+
+omit [Add K] [Mul K] [NatCast K] in
+theorem fits_of_wf {g : AtGrid P K} (h : g.WF) : g.Fits := Or.inl h
+
+omit [Add K] [Mul K] [NatCast K] in
+theorem segPoints_length {g : AtGrid P K} (h : g.Fits) : g.segPoints.length = g.size := by
+  unfold AtGrid.segPoints
+  by_cases h1 : g.points.length = g.size
+  · rw [if_pos h1]; exact h1
+  · rw [if_neg h1]
+    have h2 : g.points.length = 1 := by
+      rcases h with h | h
+      · exact absurd h h1
+      · exact h
+    match hp : g.points, h2 with
+    | [v], _ => simp
+
+omit [Add K] [Mul K] [NatCast K] in
+theorem map_segPoints_of_wf (atgrids : List (AtGrid P K)) (hw : ∀ g ∈ atgrids, g.WF) :
+    atgrids.map AtGrid.segPoints = atgrids.map AtGrid.points :=
+  List.map_congr_left fun g hg => segPoints_of_wf (hw g hg)
+
+omit [Add K] [Mul K] [NatCast K] in
+theorem flatten_points_length (atgrids : List (AtGrid P K)) (hw : ∀ g ∈ atgrids, g.Fits) :
+    (atgrids.map AtGrid.segPoints).flatten.length = (atgrids.map AtGrid.size).sum := by
   rw [List.length_flatten, List.map_map]
   congr 1
   apply List.map_congr_left
   intro g hg
-  exact hw g hg
+  exact segPoints_length (hw g hg)
 
 omit [Add K] [NatCast K] in
 theorem mulBroadcast_eq_len {a b w : List K} (h : mulBroadcast a b = .ok w)
@@ -310,5 +342,139 @@ theorem mulBroadcast_length {a b w : List K} (h : mulBroadcast a b = .ok w) :
     | [b0], h => cases h; simp
 
 end init
+
+/-! ### the NumPy primitives of the generated constructor -/
+
+theorem ok_bind (a : α) (f : α → Py β) : (Except.ok a >>= f) = f a := rfl
+
+theorem error_bind (e : PyErr) (f : α → Py β) : ((Except.error e : Py α) >>= f) = .error e := rfl
+
+theorem throw_bind (e : PyErr) (f : α → Py β) : ((throw e : Py α) >>= f) = .error e := rfl
+
+theorem mkLocalGrid_ok {p : List P} {w : List K} (c : P) (h : p.length = w.length) :
+    mkLocalGrid p w c = .ok (.localGrid p w c) := by
+  unfold mkLocalGrid; rw [if_neg (not_not.mpr h)]; rfl
+
+theorem mkLocalGrid_error {p : List P} {w : List K} (c : P) (h : p.length ≠ w.length) :
+    mkLocalGrid p w c = .error .valueError := by
+  unfold mkLocalGrid; rw [if_pos h]; rfl
+
+theorem pySetItem_nat_lt (l : List α) (i : Nat) (v : α) (h : i < l.length) :
+    pySetItem l (i : Int) v = .ok (l.set i v) := by
+  unfold pySetItem
+  have h1 : ¬ ((i : Int) < 0) := by omega
+  simp only [h1, ↓reduceIte, Int.toNat_natCast, h]
+  rfl
+
+theorem pySetItem_nat_ge (l : List α) (i : Nat) (v : α) (h : l.length ≤ i) :
+    pySetItem l (i : Int) v = .error .indexError := by
+  unfold pySetItem
+  have h1 : ¬ ((i : Int) < 0) := by omega
+  have h2 : ¬ (i < l.length) := by omega
+  simp only [h1, ↓reduceIte, Int.toNat_natCast, h2]
+  rfl
+
+theorem pySetItem_succ (l : List α) (i : Nat) (v : α) :
+    pySetItem l ((i : Int) + 1) v = pySetItem l ((i + 1 : Nat) : Int) v := by
+  congr 1
+
+/-- Overwriting the first still-zero cell behind the filled part `A`. -/
+theorem set_append_replicate (A : List α) (r : Nat) (z v : α) :
+    (A ++ List.replicate (r + 1) z).set A.length v = (A ++ [v]) ++ List.replicate r z := by
+  rw [List.set_append_right _ _ (Nat.le_refl _), Nat.sub_self, List.replicate_succ, List.set_cons_zero,
+    List.append_assoc]
+  rfl
+
+theorem getElem?_append_replicate (A : List α) (r : Nat) (z : α) :
+    (A ++ List.replicate (r + 1) z)[A.length]? = some z := by
+  rw [List.getElem?_append_right (Nat.le_refl _), Nat.sub_self, List.replicate_succ]
+  rfl
+
+theorem fitSlice_self (l : List α) : fitSlice l.length l = .ok l := by
+  unfold fitSlice; rw [if_pos rfl]; rfl
+
+theorem fitSlice_length {n : Nat} {vals v : List α} (h : fitSlice n vals = .ok v) : v.length = n := by
+  unfold fitSlice at h
+  by_cases h1 : vals.length = n
+  · rw [if_pos h1] at h; cases h; exact h1
+  · rw [if_neg h1] at h
+    match vals, h with
+    | [x], h => cases h; simp
+
+/-- `_points[start:end] = atom_grid.points` on a segment of the atom's size: accepted exactly for
+`Fits`, and then the segment holds `segPoints`. -/
+theorem fitSlice_points (g : AtGrid P K) :
+    fitSlice g.size g.points = if g.Fits then .ok g.segPoints else .error .valueError := by
+  unfold fitSlice AtGrid.segPoints AtGrid.Fits
+  by_cases h1 : g.points.length = g.size
+  · simp only [h1, ↓reduceIte, true_or]; rfl
+  · simp only [h1, ↓reduceIte, false_or]
+    match hp : g.points with
+    | [] => simp; rfl
+    | [v] => simp; rfl
+    | _ :: _ :: _ => simp; rfl
+
+/-- Slice assignment right behind the filled part `A` of a zero-initialised array. -/
+theorem pySetSlice_append_replicate (A : List α) (n z : Nat) (zero : α) (vals : List α) :
+    pySetSlice (A ++ List.replicate (n + z) zero) A.length (A.length + n) vals =
+      match fitSlice n vals with
+      | .ok v => .ok (A ++ v ++ List.replicate z zero)
+      | .error e => .error e := by
+  unfold pySetSlice
+  have hl : (A ++ List.replicate (n + z) zero).length = A.length + (n + z) := by simp
+  have h1 : min A.length (A ++ List.replicate (n + z) zero).length = A.length := by omega
+  have h2 : min (A.length + n) (A ++ List.replicate (n + z) zero).length - A.length = n := by omega
+  simp only [h1, h2]
+  cases fitSlice n vals with
+  | error e => rfl
+  | ok v =>
+    simp only [pure, Except.pure]
+    congr 2
+    · simp
+    · rw [List.drop_append, List.drop_of_length_le (by omega), List.nil_append, List.drop_replicate]
+      congr 1; omega
+
+theorem npZeros_int (n : Nat) (zero : α) : npZeros (.int n) zero = .ok (List.replicate n zero) := rfl
+
+theorem npSum_cons (a : Nat) (l : List Nat) : npSum (a :: l) = .int (a + l.sum) := by
+  simp [npSum]
+
+theorem npSum_ne_nil {l : List Nat} (h : l ≠ []) : npSum l = .int l.sum := by
+  cases l with
+  | nil => exact absurd rfl h
+  | cons a r => simp [npSum]
+
+theorem pyForEnum_nil {σ : Type} (body : σ → Nat → α → Py σ) (i : Nat) (s : σ) :
+    pyForEnum body i [] s = .ok s := rfl
+
+theorem pyForEnum_cons_ok {σ : Type} (body : σ → Nat → α → Py σ) (i : Nat) (a : α) (r : List α)
+    (s s' : σ) (h : body s i a = .ok s') : pyForEnum body i (a :: r) s = pyForEnum body (i + 1) r s' := by
+  rw [pyForEnum, h]
+
+theorem pyForEnum_cons_error {σ : Type} (body : σ → Nat → α → Py σ) (i : Nat) (a : α) (r : List α)
+    (s : σ) (e : PyErr) (h : body s i a = .error e) : pyForEnum body i (a :: r) s = .error e := by
+  rw [pyForEnum, h]
+
+theorem prefixSums_append_singleton (s : Nat) (ns : List Nat) (n : Nat) :
+    prefixSums s (ns ++ [n]) = prefixSums s ns ++ [s + ns.sum + n] := by
+  induction ns generalizing s with
+  | nil => simp [prefixSums]
+  | cons a r ih =>
+    simp only [List.cons_append, prefixSums, ih, List.sum_cons, List.append_cancel_left_eq,
+      List.cons.injEq, and_true, true_and]
+    omega
+
+theorem indexTable_append_singleton (ns : List Nat) (n : Nat) :
+    indexTable (ns ++ [n]) = indexTable ns ++ [ns.sum + n] := by
+  unfold indexTable; rw [prefixSums_append_singleton]; simp
+
+/-- The arrays of `MolGrid.__init__` after the loop has handled the atoms `d`, with `r` atoms and
+`z` points still to come: filled parts followed by the zeros of `np.zeros`. -/
+def loopState [NatCast K] (zeroRow : P) (d : List (AtGrid P K)) (r z : Nat) :
+    List P × List Nat × List P × List K :=
+  (d.map AtGrid.center ++ List.replicate r zeroRow,
+   indexTable (d.map AtGrid.size) ++ List.replicate r 0,
+   (d.map AtGrid.segPoints).flatten ++ List.replicate z zeroRow,
+   (d.map AtGrid.weights).flatten ++ List.replicate z ((0 : Nat) : K))
 
 end GridVerif.MolGrid
